@@ -127,3 +127,61 @@ def hammer(ctx, calls, nthreads=4, per_thread=40000, budget=3.0):
     for b in bad[:1]:
         ctx.fail('concurrent-calls-answer-as-alone', {'kind': 'hammer', 'call': b['call']}, b)
     return sum(counts)
+
+
+def bounded_call(thunk, timeout=30.0):
+    """Runs thunk in a daemon thread.  ('ok', repr) / ('exc', type name) as _outcome, or ('stuck', where) when the call has
+    not returned after `timeout` seconds AND the thread sat on the same line in three samples taken over the last third of
+    that time (a call that normally takes microseconds: blocked on a lock nobody will release, or spinning in one place)."""
+    import time
+    box = []
+    t = threading.Thread(target=lambda: box.append(_outcome(thunk)), daemon=True)
+    t.start()
+    t.join(timeout * 2 / 3)
+    if not t.is_alive():
+        return box[0]
+    samples = []
+    for _ in range(3):
+        fr = sys._current_frames().get(t.ident)
+        samples.append((fr.f_code.co_filename, fr.f_lineno) if fr is not None else None)
+        t.join(timeout / 9)
+        if not t.is_alive():
+            return box[0]
+    if samples[0] is not None and samples[0] == samples[1] == samples[2]:
+        return ('stuck', '%s:%d' % samples[0])
+    return ('slow', repr(samples))
+
+
+def after_rejected_calls(ctx, funcs, calls):
+    """funcs: library functions; calls: (label, thunk) of valid calls (the hammer's list).  Every function is first called in
+    ways the library rejects (no arguments, None, a number, bytes, an arbitrary object - whatever it raises is the caller's
+    problem), then the valid calls are made again: they answer as before.  State that a rejected call leaves behind (a lock
+    taken and not released on the error path, a half-built cache entry) shows as a different answer or as a call that
+    never returns."""
+    before = [_outcome(t) for _l, t in calls]
+    again = [_outcome(t) for _l, t in calls]
+    n_rej = 0
+    for f in funcs:
+        for args in ((), (None,), (5,), (b'\xff',), (object(),), ([],), (None, None), ('x', None), (None, 'x')):
+            got = bounded_call(lambda: f(*args), timeout=20.0)
+            n_rej += 1
+            if got[0] == 'stuck':
+                ctx.fail('valid-calls-after-rejected-calls-answer-as-before',
+                         {'kind': 'after-rejected', 'function': getattr(f, '__name__', '?'), 'args': repr(args)},
+                         {'rejected_call_never_returned': got[1]})
+                return 0
+    n = 0
+    for i, (label, thunk) in enumerate(calls):
+        if before[i] != again[i]:
+            continue
+        got = bounded_call(thunk)
+        n += 1
+        if got[0] == 'slow':
+            ctx.inconclusive_because('after rejected calls: %s did not return in time (no fixed place): %s' % (label, got[1]))
+            break
+        if got != before[i]:
+            ctx.fail('valid-calls-after-rejected-calls-answer-as-before', {'kind': 'after-rejected', 'call': label},
+                     {'before': before[i], 'after_rejected_calls': got, 'rejected_calls_made': n_rej})
+            break
+    ctx.clause('valid-calls-after-rejected-calls-answer-as-before', n)
+    return n
